@@ -8,7 +8,7 @@ PROP = "C09"
 BUDGET = {"quick": 1400, "thorough": 40000}
 ALARM_S = 900
 RULE = ("seeded sequences of 1-8 assignments in mixed formats (list, tuple, ndarray, permuted (name,value) pairs, dict by "
-        "name, dict by symbol, partial dict, scalar when p=1) with must-reject operations (unknown name in dict/pairs, "
+        "name, dict keyed per entry by name / the model's own symbol / a sympy.Symbol made by the caller with no or other assumptions, partial dict) with must-reject operations (a name that is not a parameter - arbitrary, the reserved time symbol 't', a state name, a near miss - in dict/pairs, "
         "short/long list, oversized dict) anywhere in the sequence; after every assignment ode and grad are evaluated and "
         "compared with the reference under RefParams; non-trivial = the sequence contains a permuted pairs form, a partial "
         "update or a rejected operation followed by further operations; distinct = distinct case digests")
@@ -19,8 +19,16 @@ ASSUMPTIONS = ["any exception type counts as rejection",
                "(PyGOM mutates its stored map in place before it reaches the bad key); no other relaxation"]
 
 
-def gen_assign(rng, params, allow_reject=True):
+def _kinds(rng, k):
+    """Key kind per dict entry: the name, the model's own symbol, or a Symbol made by the caller."""
+    return [rng.choice(["name", "name", "sym", "fsym", "fsym", "fsym_pos"]) for _ in range(k)]
+
+
+def gen_assign(rng, params, allow_reject=True, states=()):
     p = len(params)
+    # names that are not parameters: an arbitrary one, the reserved time symbol, a state name, near misses
+    bad = rng.choice(["nosuchparam", "nosuchparam", "t", "t", (states[0] if states else "nosuchparam"),
+                      params[0] + "x", (params[0].upper() if params[0].upper() not in params else "nosuchparam")])
     val = lambda: rng.choice([round(rng.uniform(0.05, 3.0), 4), rng.randint(1, 3)])
     fmts = ["list", "tuple", "array", "pairs", "pairs", "dict", "dict_sym", "partial", "partial"]
     # the bare-scalar form for p == 1 is not among the accepted forms the property lists (and raises
@@ -32,15 +40,16 @@ def gen_assign(rng, params, allow_reject=True):
     if reject == "unknown_name_dict":
         names = rng.sample(params, rng.randint(1, p))
         vals = [[nm, val()] for nm in names]
-        vals.insert(rng.randint(0, len(vals)), ["nosuchparam", val()])
+        vals.insert(rng.randint(0, len(vals)), [bad, val()])
         if len(vals) > p:
-            vals = vals[:p] if any(v[0] == "nosuchparam" for v in vals[:p]) else [["nosuchparam", val()]] + vals[:p - 1]
-        return {"op": "set_params", "fmt": "dict", "values": vals, "reject": "unknown_name"}
+            vals = vals[:p] if any(v[0] == bad for v in vals[:p]) else [[bad, val()]] + vals[:p - 1]
+        return {"op": "set_params", "fmt": "dict_mix", "kinds": [rng.choice(["name", "name", "fsym"]) for _ in vals],
+                "values": vals, "reject": "unknown_name"}
     if reject == "unknown_name_pairs":
         names = list(params)
         rng.shuffle(names)
         vals = [[nm, val()] for nm in names]
-        vals[rng.randrange(p)][0] = "nosuchparam"
+        vals[rng.randrange(p)][0] = bad
         return {"op": "set_params", "fmt": "pairs", "values": vals, "reject": "unknown_name"}
     if reject == "short" and p >= 2:
         vals = [[nm, val()] for nm in params[:-1]]
@@ -60,10 +69,14 @@ def gen_assign(rng, params, allow_reject=True):
     if fmt in ("dict", "dict_sym"):
         names = list(params)
         rng.shuffle(names)
+        if fmt == "dict_sym":
+            return {"op": "set_params", "fmt": "dict_mix", "kinds": _kinds(rng, len(names)), "values": [[nm, val()] for nm in names]}
         return {"op": "set_params", "fmt": fmt, "values": [[nm, val()] for nm in names]}
     if fmt == "partial":
         names = rng.sample(params, rng.randint(1, max(1, p - 1)))
-        return {"op": "set_params", "fmt": rng.choice(["dict", "dict_sym"]), "values": [[nm, val()] for nm in names]}
+        if rng.random() < 0.6:
+            return {"op": "set_params", "fmt": "dict_mix", "kinds": _kinds(rng, len(names)), "values": [[nm, val()] for nm in names]}
+        return {"op": "set_params", "fmt": "dict", "values": [[nm, val()] for nm in names]}
     if fmt == "scalar":
         return {"op": "set_params", "fmt": "scalar", "values": [[params[0], val()]]}
     raise core.HarnessError(fmt)
@@ -80,7 +93,7 @@ def generate(seed, tier):
     ops = []
     nrej = 0
     for _ in range(srng.randint(1, 8)):
-        a = gen_assign(srng, params)
+        a = gen_assign(srng, params, states=names)
         ops.append(a)
         nrej += 1 if a.get("reject") else 0
         x, t, _ = gen.gen_point(srng, names, [])
@@ -103,7 +116,7 @@ def nontrivial(case):
         names = [v[0] for v in op["values"]]
         if op["fmt"] == "pairs" and names != sorted(names, key=lambda n: case["model"]["params"].index(n) if n in case["model"]["params"] else -1):
             return True
-        if op["fmt"] in ("dict", "dict_sym") and len(names) < len(case["model"]["params"]):
+        if op["fmt"].startswith("dict") and len(names) < len(case["model"]["params"]):
             return True
     return False
 
